@@ -1,9 +1,11 @@
 (* C03 "mirrors the token stream": every tape the binary tape parser accepts, related to the raw token
    sequence of the same bytes (BinTapeMirror.v).  One proof, generic in the relation R between the
    stream (without `=`) and the tape's token sequence (without `=`); instantiated twice:
-     subseq        unconditional: the tape is a subsequence of the stream
-     ghost_groups  when the reference run never takes the only_empties branch with an odd remainder
-                   (finding L): the stream is the tape plus inserted [Open; Close] pairs *)
+     subseq        the tape is a subsequence of the stream
+     ghost_groups  the stream is the tape plus inserted [Open; Close] pairs
+   Both unconditional since the fix for finding L (only_empties also requires an even remainder:
+   `pairs.remainder().is_empty()`); before it the second one needed the run never to meet an odd
+   remainder, and `a = { {} x y = z }` lost x. *)
 From JV Require Import Bytes Tables BinPrim BinTape BinTapeWf BinTapeMirror.
 From JV.proofs Require Import BinLexProofs BinRoundProofs BinTapeWfProofs BinTapeInv BinTapeSim.
 Require Import Lia List.
@@ -333,12 +335,10 @@ Qed.
 (* ------------------------------------------------------------------ the generic simulation *)
 Section Mirror.
   Variable R : list btoken -> list btoken -> Prop.
-  Variable strict : bool.
   Hypothesis R_refl : forall l, R l l.
   Hypothesis R_trans : forall a b c, R a b -> R b c -> R a c.
   Hypothesis R_app : forall a b c d, R a b -> R c d -> R (a ++ c) (b ++ d).
   Hypothesis R_ghosts : forall k, R (ghosts k) [].
-  Hypothesis R_any : strict = false -> forall g, R g [].
 
   Lemma R_snoc : forall pre t tk, R (noeq pre) (NU t) -> is_eq tk = false -> forall x, noeq (untape1 x) = [tk] ->
     R (noeq (pre ++ [tk])) (NU (push t x)).
@@ -355,12 +355,11 @@ Section Mirror.
 
   Lemma slow_ref_mirror : forall data h d ps par t s' pre,
     get_split 2 data = Some (h, d) ->
-    (strict = true -> odd_hit_step (mkst data ps par t) = false) ->
     slow false d (le_word 2 h) ps par t = Ok s' ->
     R (noeq pre) (NU t) ->
     exists tks, (forall ts, lexes (s_data s') ts -> lexes data (tks ++ ts)) /\ R (noeq (pre ++ tks)) (NU (s_tape s')).
   Proof.
-    intros data h d ps0 par t0 s' pre Hg Hodd H HR.
+    intros data h d ps0 par t0 s' pre Hg H HR.
     set (id := le_word 2 h) in *.
     assert (Hid : read_id data = Ok (id, d)) by (unfold read_id; now rewrite Hg).
     unfold slow in H.
@@ -452,16 +451,8 @@ Section Mirror.
             destruct par; [reflexivity|]. cbn [upd]. cbn [skipn]. apply IH. }
           rewrite NU_app in HR |- *. rewrite <- Hn2, <- (firstn_skipn (S par) t2), NU_app, <- app_assoc in HR.
           eapply R_drop; [|exact HR].
-          rewrite Hsk. unfold only_empties in Eo. apply andb_prop in Eo as [El Eo].
-          destruct strict eqn:Est.
-          -- specialize (Hodd eq_refl). unfold odd_hit_step in Hodd. cbn [s_data s_ps s_par s_tape] in Hodd.
-             rewrite Hg in Hodd. rewrite Hce in Hodd. rewrite N.eqb_refl in Hodd.
-             rewrite Ep, Ea in Hodd. unfold only_empties in Hodd.
-             rewrite El, Eo in Hodd. cbn [negb andb] in Hodd.
-             destruct (all_empty_pairs_ghosts _ Eo) as [k Hk].
-             { rewrite <- Nat.negb_odd, Hodd. reflexivity. }
-             rewrite Hk. apply R_ghosts.
-          -- now apply R_any.
+          rewrite Hsk. unfold only_empties in Eo. apply andb_prop in Eo as [Eo Ep2]. apply andb_prop in Eo as [_ Eev].
+          destruct (all_empty_pairs_ghosts _ Ep2 Eev) as [k Hk]. rewrite Hk. apply R_ghosts.
         * inversion H; subst; clear H. exists [BEqual]. split; [exact Hlex|].
           cbn [s_tape]. rewrite Hpre. rewrite !NU_push. unfold push in HR. rewrite NU_app in HR.
           cbn [untape1 noeq filter is_eq negb]. rewrite !app_nil_r.
@@ -487,23 +478,18 @@ Section Mirror.
   Qed.
 
   Lemma loop_mirror : forall fuel s t pre,
-    (strict = true -> odd_loop fuel s = false) ->
     loop false false fuel s = Ok t -> R (noeq pre) (NU (s_tape s)) ->
     exists ts, lexes (s_data s) ts /\ R (noeq (pre ++ ts)) (NU t).
   Proof.
-    induction fuel as [|f IH]; intros s t pre Hodd H HR; [discriminate|].
+    induction fuel as [|f IH]; intros s t pre H HR; [discriminate|].
     cbn [loop] in H.
     destruct (get_split 2 (s_data s)) as [[h d]|] eqn:Eg.
     - rewrite (iter_ref_unfold _ _ _ Eg) in H.
       destruct (slow false d (le_word 2 h) (s_ps s) (s_par s) (s_tape s)) as [s1| | | |] eqn:Es;
         try (cbn in H; discriminate).
-      assert (Ho1 : strict = true -> odd_hit_step s = false /\ odd_loop f s1 = false).
-      { intros Q. specialize (Hodd Q). cbn [odd_loop] in Hodd.
-        destruct (odd_hit_step s); [discriminate|]. split; auto.
-        rewrite (iter_ref_unfold _ _ _ Eg), Es in Hodd. exact Hodd. }
       destruct s as [sd sps spar stp]. cbn [s_data s_ps s_par s_tape] in *.
-      destruct (slow_ref_mirror sd h d sps spar stp s1 pre Eg (fun Q => proj1 (Ho1 Q)) Es HR) as (tks & Hl & HR1).
-      destruct (IH s1 t (pre ++ tks) (fun Q => proj2 (Ho1 Q)) H HR1) as (ts & Hts & HRt).
+      destruct (slow_ref_mirror sd h d sps spar stp s1 pre Eg Es HR) as (tks & Hl & HR1).
+      destruct (IH s1 t (pre ++ tks) H HR1) as (ts & Hts & HRt).
       exists (tks ++ ts). split; [now apply Hl|]. now rewrite app_assoc.
     - unfold iter in H. rewrite Eg in H. unfold finish in H.
       destruct (s_par s); [|discriminate]. destruct (s_ps s); try discriminate. inversion H; subst.
@@ -511,12 +497,11 @@ Section Mirror.
       constructor. apply get_split_none in Eg. exact Eg.
   Qed.
 
-  Theorem parse_ref_mirror : forall bytes t,
-    (strict = true -> odd_hit bytes = false) -> parse_ref bytes = Ok t ->
+  Theorem parse_ref_mirror : forall bytes t, parse_ref bytes = Ok t ->
     exists toks, raw_lex bytes = Some toks /\ R (noeq toks) (noeq (untape t)).
   Proof.
-    intros bytes t Hodd H. unfold parse_ref, parse in H.
-    destruct (loop_mirror (S (length bytes)) (init bytes) t [] Hodd H) as (ts & Hl & HR).
+    intros bytes t H. unfold parse_ref, parse in H.
+    destruct (loop_mirror (S (length bytes)) (init bytes) t [] H) as (ts & Hl & HR).
     { cbn. apply R_refl. }
     exists ts. split; [now apply lexes_raw_lex|exact HR].
   Qed.
@@ -526,24 +511,21 @@ End Mirror.
 Theorem ref_tape_subseq : forall bytes t, parse_ref bytes = Ok t ->
   exists toks, raw_lex bytes = Some toks /\ subseq (noeq toks) (noeq (untape t)).
 Proof.
-  intros bytes t H. apply (parse_ref_mirror subseq false); auto.
+  intros bytes t H. apply (parse_ref_mirror subseq); auto.
   - apply ss_refl.
   - intros a b c H1 H2. eapply ss_trans; eauto.
   - intros a b c d H1 H2. now apply ss_app.
   - intros k. apply ss_nil.
-  - intros _ g. apply ss_nil.
-  - discriminate.
 Qed.
 
-Theorem ref_tape_mirror : forall bytes t, parse_ref bytes = Ok t -> odd_hit bytes = false ->
+Theorem ref_tape_mirror : forall bytes t, parse_ref bytes = Ok t ->
   exists toks, raw_lex bytes = Some toks /\ ghost_groups (noeq toks) (noeq (untape t)).
 Proof.
-  intros bytes t H Ho. apply (parse_ref_mirror ghost_groups true); auto.
+  intros bytes t H. apply (parse_ref_mirror ghost_groups); auto.
   - constructor.
   - intros a b c H1 H2. eapply gg_trans; eauto.
   - intros a b c d H1 H2. now apply gg_app.
   - apply gg_ghosts.
-  - discriminate.
 Qed.
 
 (* the optimised parser: through fast = reference (BinTapeSim) *)
@@ -560,26 +542,48 @@ Theorem opt_tape_subseq : forall bytes t, parse_opt bytes = Ok t ->
   exists toks, raw_lex bytes = Some toks /\ subseq (noeq toks) (noeq (untape t)).
 Proof. intros. apply ref_tape_subseq. now apply opt_ok_ref_ok. Qed.
 
-Theorem opt_tape_mirror : forall bytes t, parse_opt bytes = Ok t -> odd_hit bytes = false ->
+Theorem opt_tape_mirror : forall bytes t, parse_opt bytes = Ok t ->
   exists toks, raw_lex bytes = Some toks /\ ghost_groups (noeq toks) (noeq (untape t)).
 Proof. intros. apply ref_tape_mirror; auto. now apply opt_ok_ref_ok. Qed.
 
-(* finding L: without the exclusion the exact statement is false -- `a = { {} x y = z }` loses x *)
+(* consequence: every token of the stream other than `{`, `}` and `=` is on the tape *)
+Lemma gg_in : forall s t, ghost_groups s t -> forall x, In x s -> x = BOpen \/ x = BClose \/ In x t.
+Proof.
+  induction 1; intros x Hx; [auto|].
+  apply in_app_or in Hx. destruct Hx as [Hx|[Hx|[Hx|Hx]]]; auto.
+  - apply IHghost_groups. apply in_or_app. auto.
+  - apply IHghost_groups. apply in_or_app. auto.
+Qed.
+
+Theorem tape_keeps_payloads : forall bytes t, parse_opt bytes = Ok t \/ parse_ref bytes = Ok t ->
+  exists toks, raw_lex bytes = Some toks /\
+    forall x, In x toks -> x <> BOpen -> x <> BClose -> x <> BEqual -> In x (untape t).
+Proof.
+  intros bytes t H.
+  assert (Hr : parse_ref bytes = Ok t) by (destruct H; auto using opt_ok_ref_ok).
+  destruct (ref_tape_mirror _ _ Hr) as (toks & Hl & Hg). exists toks. split; auto.
+  intros x Hx Ho Hc He.
+  assert (Hn : In x (noeq toks)).
+  { unfold noeq. apply filter_In. split; auto. destruct x; try reflexivity. exfalso. now apply He. }
+  destruct (gg_in _ _ Hg x Hn) as [Q|[Q|Q]]; try congruence.
+  unfold noeq in Q. apply filter_In in Q. tauto.
+Qed.
+
+(* regression example for finding L: `a = { {} x y = z }` used to lose x (only_empties ignored the odd
+   trailing token); with `pairs.remainder().is_empty()` the container is a mixed array that keeps
+   the leading `{}` and x, and the strict decider says yes *)
 Definition witness_L : bytes :=
   [130;45; 1;0; 3;0; 3;0; 4;0; 131;45; 132;45; 1;0; 133;45; 4;0]%N.
 
-Theorem mirror_refuted : exists bytes t toks,
-  parse_ref bytes = Ok t /\ parse_opt bytes = Ok t /\ raw_lex bytes = Some toks /\
-  In (BId 11651%N) toks /\ ~ In (TToken 11651%N) t /\ mirrorb toks t = false.
+Theorem witness_L_mirrors : exists t toks,
+  parse_ref witness_L = Ok t /\ parse_opt witness_L = Ok t /\ raw_lex witness_L = Some toks /\
+  t = [TToken 11650%N; TArray 9; TArray 3; TEnd 2; TToken 11651%N; TMixed; TToken 11652%N; TEqual; TToken 11653%N; TEnd 1] /\
+  In (BId 11651%N) toks /\ In (TToken 11651%N) t /\ mirrorb toks t = true.
 Proof.
-  exists witness_L. eexists. eexists. split; [vm_compute; reflexivity|]. split; [vm_compute; reflexivity|].
-  split; [vm_compute; reflexivity|]. split; [cbn; tauto|]. split; [|vm_compute; reflexivity].
-  cbn. intros [Q|[Q|[Q|[Q|[Q|Q]]]]]; try discriminate; auto.
+  eexists. eexists. split; [vm_compute; reflexivity|]. split; [vm_compute; reflexivity|].
+  split; [vm_compute; reflexivity|]. split; [reflexivity|]. split; [cbn; tauto|]. split; [cbn; tauto|].
+  vm_compute. reflexivity.
 Qed.
-
-(* ... and it is the only way a non-brace token gets lost: the model's flag is set on the witness *)
-Example witness_L_is_odd : odd_hit witness_L = true.
-Proof. vm_compute. reflexivity. Qed.
 
 (* the deciders run on the real tapes (kind bt.mir) decide the strict relation, which implies ghost_groups *)
 Theorem mirrorb_strict : forall toks t, mirrorb toks t = true <-> ghost_erase (noeq toks) (noeq (untape t)).
